@@ -182,23 +182,39 @@ function namesOfModule(SPC, mod) {
 // definition is replaced by the definition it points at. Two same-named variant definitions that differ in any
 // other way (a title, a keyword, a member) are not this finding (seeded change c16o-2 was attributed to it by the
 // looser rule "different bodies").
-function withRefsInlined(x, defs, cfg, open) {
-  if (Array.isArray(x)) return x.map((y) => withRefsInlined(y, defs, cfg, open));
-  if (!x || typeof x !== "object") return x;
-  if (typeof x.$ref === "string") {
-    for (const k of Object.keys(defs)) {
-      if (cfg.refPathTemplate.replace("{name}", () => k) !== x.$ref) continue;
-      if (open.has(k)) return { $recursive: open.size - [...open].indexOf(k) };
-      open.add(k);
-      const { $ref, ...rest } = x;
-      const r = { ...withRefsInlined(defs[k], defs, cfg, open), ...withRefsInlined(rest, defs, cfg, open) };
-      open.delete(k);
-      return r;
+function sameModuloNamedRefs(a, b, defsA, defsB, cfg, assumed) {
+  // equi-recursive comparison: a $ref to a named definition stands for that definition; a pair that is being
+  // compared already is assumed equal (recursive types)
+  const target = (x, defs) => {
+    if (!x || typeof x !== "object" || Array.isArray(x) || typeof x.$ref !== "string") return null;
+    for (const k of Object.keys(defs)) if (cfg.refPathTemplate.replace("{name}", () => k) === x.$ref) return k;
+    return null;
+  };
+  for (let guard = 0; guard < 64; guard++) {
+    const ka = target(a, defsA);
+    const kb = target(b, defsB);
+    if (ka === null && kb === null) break;
+    const key = (ka !== null ? "r:" + a.$ref : "b:" + canon(a)) + "|" + (kb !== null ? "r:" + b.$ref : "b:" + canon(b));
+    if (assumed.has(key)) return true;
+    assumed.add(key);
+    if (ka !== null) {
+      const { $ref, ...rest } = a;
+      a = { ...defsA[ka], ...rest };
+    }
+    if (kb !== null) {
+      const { $ref, ...rest } = b;
+      b = { ...defsB[kb], ...rest };
     }
   }
-  const o = {};
-  for (const [k, v] of Object.entries(x)) o[k] = withRefsInlined(v, defs, cfg, open);
-  return o;
+  if (Array.isArray(a) || Array.isArray(b)) {
+    if (!Array.isArray(a) || !Array.isArray(b) || a.length !== b.length) return false;
+    return a.every((x, i) => sameModuloNamedRefs(x, b[i], defsA, defsB, cfg, assumed));
+  }
+  if (!a || !b || typeof a !== "object" || typeof b !== "object") return a === b;
+  const ka = Object.keys(a).sort();
+  const kb = Object.keys(b).sort();
+  if (ka.length !== kb.length || ka.some((k, i) => k !== kb[i])) return false;
+  return ka.every((k) => sameModuloNamedRefs(a[k], b[k], defsA, defsB, cfg, assumed));
 }
 function syntheticNameCollision(SPC, mod, cfg) {
   const seen = new Map();
@@ -208,23 +224,19 @@ function syntheticNameCollision(SPC, mod, cfg) {
     for (const [k, body] of Object.entries(f.defs)) {
       if (!k.startsWith("Discriminated")) continue;
       const c = canon(body);
-      if (seen.has(k) && seen.get(k).c !== c) {
-        let flat;
-        try {
-          flat = canon(withRefsInlined(body, f.defs, cfg, new Set([k])));
-        } catch {
-          flat = null;
-        }
-        if (flat !== null && seen.get(k).flat === flat) return k;
+      const first = seen.get(k);
+      if (!first) {
+        seen.set(k, { c, body, defs: f.defs });
         continue;
       }
-      if (!seen.has(k)) {
-        let flat = null;
-        try {
-          flat = canon(withRefsInlined(body, f.defs, cfg, new Set([k])));
-        } catch {}
-        seen.set(k, { c, flat });
+      if (first.c === c) continue;
+      let same = false;
+      try {
+        same = sameModuloNamedRefs(first.body, body, first.defs, f.defs, cfg, new Set());
+      } catch {
+        same = false;
       }
+      if (same) return k;
     }
   }
   return null;
